@@ -59,11 +59,15 @@ PLANS = {
         "quick": [ex("spn3", "spn", 3, 3, alphabet=["a", "b", "E"], kinds=["str"], invariants=INV_SPANS),
                   ex("spng3", "spng", 3, 3, kinds=["mapped", "mstream"], modes=["E"], invariants=INV_SPANS),
                   ex("spn2", "spn", 2, 3, kinds=["slice", "array", "bytes"], modes=["E"], invariants=INV_SPANS),
-                  rec("spnR", "spn", 1500, 8, 8, kinds=["str", "slice"]), rec("spngR", "spng", 1500, 8, 8, kinds=["mapped", "mstream", "stream"])],
+                  ex("spnr3", "spnr", 3, 3, kinds=["mapped", "slice"], modes=["E"], invariants=INV_SPANS),
+                  rec("spnR", "spn", 1500, 8, 8, kinds=["str", "slice"]), rec("spngR", "spng", 1500, 8, 8, kinds=["mapped", "mstream", "stream"]),
+                  rec("spnrR", "spnr", 1000, 8, 8, kinds=["mapped", "slice", "wctx", "mapspan"])],
         "thorough": [ex("spn3", "spn", 3, 4, alphabet=["a", "b", "E"], kinds=["str"], invariants=INV_SPANS),
                      ex("spng3", "spng", 3, 4, kinds=["mapped", "mstream"], modes=["E"], invariants=INV_SPANS),
                      ex("spn3s", "spn", 3, 3, kinds=["slice", "bytes"], modes=["E"], invariants=INV_SPANS),
-                     rec("spnR", "spn", 20000, 10, 10, kinds=["str", "slice"]), rec("spngR", "spng", 20000, 10, 10, kinds=["mapped", "mstream", "stream"])],
+                     ex("spnr3", "spnr", 3, 4, kinds=["mapped", "slice"], invariants=INV_SPANS),
+                     rec("spnR", "spn", 20000, 10, 10, kinds=["str", "slice"]), rec("spngR", "spng", 20000, 10, 10, kinds=["mapped", "mstream", "stream"]),
+                     rec("spnrR", "spnr", 20000, 10, 10, kinds=["mapped", "slice", "wctx", "mapspan"])],
     },
     "C09": {
         "quick": [ex("pratt", "pratt", 1, 4, alphabet=["a", "+", "*", "-", "!", "^"], modes=["E"], invariants=DEFAULT_INVARIANTS + ["PrattFlatten"]),
